@@ -15,17 +15,26 @@ contract("_Source._good_token", source=M + "_Source._good_token", strmode="intse
          note="a token position is good iff no '#' after the last newline of the skipped text precedes it (i.e. it is not inside a comment)")
 contract("_Source._skip_comment", source=M + "_Source._skip_comment", strmode="intseq", params={"self": "_Source"},
          requires=["0 <= self.offset and self.offset <= len(self.source)"], modifies=["self.offset"],
-         ensures=["old(self.offset) < self.offset and self.offset < len(self.source)", "self.source[self.offset] == '\\n'"],
+         ensures=["old(self.offset) < self.offset and self.offset < len(self.source)", "self.source[self.offset] == '\\n'",
+                  "forall(lambda q: implies(old(self.offset) < q and q < self.offset, self.source[q] != '\\n'))"],
          raises={"ValueError": {"ensures": ["self.offset == old(self.offset)"]}},
-         note="advances to the next newline strictly after the cursor")
+         note="advances to the FIRST newline strictly after the cursor")
 contract("_Source._get_location", abstract=True, pure=True, params={"self": "_Source"}, returns="Tuple[Int,Int]")
 contract("_Source.consume", source=M + "_Source.consume", strmode="intseq", params={"self": "_Source", "token": "Str", "skip_comment": "Bool"},
          defaults={"skip_comment": "True"}, returns="Tuple[Int,Int]",
          requires=["0 <= self.offset and self.offset <= len(self.source)", "len(token) >= 1"], modifies=["self.offset"],
          ensures=["old(self.offset) <= result[0]", "result[1] == result[0] + len(token)", "result[1] == self.offset", "result[1] <= len(self.source)",
-                  "self.source[result[0]:result[1]] == token"],
+                  "self.source[result[0]:result[1]] == token",
+                  # with skip_comment the match is not inside a comment: seen from the old cursor, or from a newline between it and the match
+                  "implies(skip_comment, exists(lambda c: old(self.offset) <= c and c <= result[0] and (c == old(self.offset) or self.source[c] == '\\n') and "
+                  "        not in_comment(self.source, c, result[0])))",
+                  # without it, the match is simply the first occurrence at or after the cursor
+                  "implies(not skip_comment, forall(lambda q: implies(old(self.offset) <= q and q < result[0], self.source[q:q + len(token)] != token)))"],
          raises={"MismatchedTokenError": {"ensures": []}},
-         loops={1: {"inv": ["old(self.offset) <= self.offset and self.offset <= len(self.source)"]}},
+         loops={1: {"decreases": "len(self.source) - self.offset",
+                    "inv": ["old(self.offset) <= self.offset and self.offset <= len(self.source)",
+                            "self.offset == old(self.offset) or (self.offset < len(self.source) and self.source[self.offset] == '\\n')",
+                            "implies(not skip_comment, self.offset == old(self.offset))"]}},
          locals={"new_offset": "Int"},
          note="the returned range lies at or after the cursor, has the token's length, holds exactly the token text, and the cursor ends right after it")
 contract("_Source.consume_joined_string", source=M + "_Source.consume_joined_string", strmode="intseq", params={"self": "_Source", "token": "Str"},
